@@ -182,7 +182,7 @@ def run(ck):
         # 2. spec -> code
         names = ["a", "b", "c"]
         el, fs = ck.pick((3, 2), (4, 3))
-        kinds = ck.pick('{"unknown", "moveshort"}', '{"movever_src", "badatom_trg"}')
+        kinds = ck.pick('{"unknown", "moveshort"}', '{"badatom_trg"}')
         cfg = f'CONSTANTS\n Names = {{"a", "b", "c"}}\n MaxLines = {el}\n FullSplits = {fs}\n BadKinds = {kinds}\n'
         exported = ck.export("PkgUpdates_Export", cfg_text=cfg, timeout=ck.pick(200, 1500))
         ck.exhaustive = True
@@ -191,7 +191,7 @@ def run(ck):
             execute([dict(y=f["y"], q=f["q"], lines=list(f["lines"])) for f in c["files"]], names)
         ck.sample(dict(direction="spec->code", files=cases[len(cases) // 2]["files"]))
         # 3. code -> spec
-        for k in range(ck.pick(1000, 30000)):
+        for k in range(ck.pick(1000, 15000)):
             nm = ["a", "b", "c", "d", "e", "f"][: r_.randint(2, 6)]
             execute(random_dir(r_, nm), nm, present=r_.random() > 0.02, vary=r_)
         ck.sample(dict(direction="code->spec", files=cases[-1]["files"], got=events[-1]["got"]))
